@@ -818,7 +818,7 @@ class LLVMFunction(object):
                 elif op in self.op_translate:
                     fc_name = self.op_translate[op]
                 elif op in self.op_translate_with_suffix_size:
-                    fc_name = "%s_%s" % (self.op_translate[op], arg_size)
+                    fc_name = "%s_%s" % (self.op_translate_with_suffix_size[op], arg_size)
 
                 fc_ptr = self.mod.get_global(fc_name)
 
